@@ -27,6 +27,7 @@ type Obl struct {
 	Trivial bool // discharged without a solver (syntactic freshness)
 	Confirm []string // thorough tier: other back ends that independently answered unsat on the whole-path run
 	Term    string
+	Part    string // frame obligations of calls: the heap family of the callee's footprint this instance is about
 }
 
 type PathScript struct {
@@ -174,6 +175,15 @@ func (ex *Exec) findLoops() {
 // ---------------------------------------------------------------------------
 // obligations
 
+// checkPart: like check, every instance labelled with the part of the obligation it is about
+func (st *State) checkPart(name, kind string, t Term, desc string, props []string, pos token.Pos, part string) {
+	n0 := len(st.ex.cur.Obls)
+	st.check(name, kind, t, desc, props, pos)
+	for _, o := range st.ex.cur.Obls[n0:] {
+		o.Part = part
+	}
+}
+
 func (st *State) check(name, kind string, t Term, desc string, props []string, pos token.Pos) {
 	ex := st.ex
 	if st.inl != nil {
@@ -222,6 +232,11 @@ func (st *State) check(name, kind string, t Term, desc string, props []string, p
 		st.nobl++
 		st.sc.emit("(push 1)\n(echo \"OBL %d %s\")\n(assert (not %s))\n(check-sat)\n(pop 1)", oi.Seq, oi.Name, p)
 		ex.cur.Obls = append(ex.cur.Obls, &oi)
+	}
+	if knownObls[o.Name] {
+		// an obligation recorded as a known finding is expected to fail: it is not assumed afterwards, so that the
+		// rest of the path is still verified (assuming a false statement would discharge everything after it)
+		return
 	}
 	st.sc.assert(t)
 }
